@@ -11,6 +11,10 @@ CONFIG = {
         "V.C04.table_facts", "V.C04.accessors_only_see_json", "V.C04.hash_match_intact", "V.C04.hash_mismatch_redacted",
         "V.C04.redaction_no_event_id", "V.C04.dropEventID_noop", "V.C04.accepted_no_event_id",
         "V.C04.identity_of_accepted", "V.C04.tamper_redactable_same_identity", "V.C04.same_redaction_same_identity_intact",
+        # round 4 (fixes 15162d8, 37131f6): texts that do not denote ONE event are refused on receipt; every accessor of an
+        # accepted event reports the exact member of JSON()
+        "V.C04.refuses_repeated_member", "V.C04.refuses_field_variant", "V.C04.keep_names_no_variant",
+        "V.C04.accepted_keys_nodup", "V.C04.accepted_no_variant", "V.C04.accessors_read_exact_members",
     ],
     "rule": "events built with EventBuilder.Build (real ed25519; 14 event types incl. every protected one, state key absent / '' / "
             "user / other, 0-4 prev and auth references, IntSafe contents, depths 0..2^53-1, all 16 versions) x 27 tamperings "
@@ -18,7 +22,17 @@ CONFIG = {
             "Event_id / Unsigned / Type / long-s sender; unsigned, age_ts, outlier, destinations, event_id; hashes corrupted, retyped, "
             "removed, URL-safe; signatures edited / removed; type, state key, sender at 255/256 code points and bytes; bad / missing "
             "room IDs; retyped struct fields; '_' keys; removed fields), each with and without a re-computed content hash, total size "
-            "65535/65536/65537 bytes, the redacted form re-submitted, re-styled texts, hand-made events; each text through "
+            "65535/65536/65537 bytes, the redacted form re-submitted, re-styled texts, hand-made events; ADVERSARIAL TEXTS assembled "
+            "member by member (a Go map cannot hold them): a second, FORGED hashes member before / after the genuine one on a "
+            "content-tampered copy of a signed event (the forged hash is what the receiver's hash check computes when it drops only the "
+            "first hashes member), a second top-level member of 15 names (unsigned, signatures, content, type, sender, room_id, state_key, "
+            "depth, origin_server_ts, prev_events, auth_events, hashes, redacts, event_id, extra) before / after the genuine one, repeated "
+            "members inside content (join_authorised_via_users_server of a member event, any content key, depth 3), inside unsigned / "
+            "signatures / hashes; every event-struct JSON name x {Capitalised, UPPER, mixed, U+017F / U+212A spelling} x {alone, beside a "
+            "null exact key, after an over-long exact key, before / after the exact key with another value}, 75% with the hash the receiver "
+            "computes; the specification stream answers REFUSED for every text that repeats a member name at any depth or carries a "
+            "case variant of a struct field name (EventSpec.mustRefuse; printed in the model's error class when the model refuses, "
+            "err:badjson otherwise); each text through "
             "NewEventFromUntrustedJSON (+ specification stream: the expected accessor tuple computed from the property's words), "
             "NewEventFromTrustedJSON, ...WithEventID and the headered form. Compared: EventID, RoomID, Type, StateKey, SenderID, "
             "Redacted, Depth, OriginServerTS, PrevEventIDs, AuthEventIDs, Content, Unsigned, canonical JSON, JSON length, error class. "
@@ -32,15 +46,21 @@ CONFIG = {
         "base64: VModel.B64 (C17)",
     ],
     "assumptions": [
-        "texts with ill-formed Unicode or duplicate keys anywhere are skipped (canonical form outside C01's specification); a repeated "
-        "prev_events / auth_events member is not modelled (stale slice elements)",
+        "texts with ill-formed Unicode are skipped (canonical form outside C01's specification). Texts that repeat a member name (any "
+        "object, any depth) are INSIDE the untrusted op since round 4: the specification demands refusal, the model refuses "
+        "(err:badjson, as newEventFromUntrustedJSONV1/V2/V3 do since 15162d8); on the trusted / headered ops such texts are still "
+        "skipped (the trusted constructors are not the receipt path)",
         "the redaction is C05's (its domain restrictions apply: kept content IntSafe etc.)",
-        "case variants of keys stripped on receipt (\"Unsigned\", \"Age_ts\", ...) survive the stripping and are visible through "
-        "Unsigned() / in JSON(); they are covered by the content hash (only the sender can add them) and disappear on redaction; "
-        "the specification stream treats events with a case variant of an EVENT-struct field (room_id, sender, type, state_key, content, "
-        "redacts, depth, unsigned, origin_server_ts, prev_events, auth_events, sticky; event_id only in format 1) or of a key stripped on "
-        "receipt as outside the quantifier (the event structs are filled by encoding/json: lenient parsing); variants of names only the "
-        "redaction keep struct lists (hashes, signatures, origin, prev_state, membership) and of event_id in hashed-ID formats are INSIDE",
+        "case variants of EVENT-struct field names (room_id, sender, type, state_key, content, redacts, depth, unsigned, origin_server_ts, "
+        "event_id, prev_events, auth_events, msc4354_sticky, sticky) as top-level members: the specification demands REFUSAL (an accessor "
+        "must report the exact member of JSON(); before 37131f6 the struct decoding read them as the field, e.g. Type() differed between "
+        "two texts with the same JSON() and event ID) - no longer 'outside the quantifier'. Variants of keys that are only stripped on "
+        "receipt (Outlier, Age_ts, Destinations) and of names only the redaction keep struct lists (hashes, signatures, origin, "
+        "prev_state, membership) are ordinary members: covered by the content hash, dropped by redaction, INSIDE the specification",
+        "refuses_repeated_member / refuses_field_variant: for every text, version and hash function; accessors_read_exact_members: for every "
+        "accepted event and every struct field name n, the members the struct decoding reads into the field are exactly the member named n "
+        "(accepted_keys_nodup, accepted_no_variant; keep_names_no_variant is the regenerated-table fact that no keep-struct name is a case "
+        "variant of a struct field name, needed for the re-parsed redacted form)",
         "tamper_redactable_same_identity (full strength, NO side condition since the redactEventJSON repair): two received events of a "
         "hashed-ID format whose stripped forms have the same redaction get the same event ID and the same signature verdicts, whichever of "
         "them passed the hash check and whatever case variants of protected keys (Event_id, ...) they carry. The former side condition hc1/hc2 "
